@@ -237,7 +237,7 @@ theorem designMatrices_shape (table : Parser.Table) (ops : Resolver.OpTable) (ac
     (formula : String) (env : Env) (naAction : String) (built : Built)
     (hwf : env.frame.wellFormed = true) (hn : env.namesScalar = true)
     (h : designMatrices table ops actions formula env naAction = .ok built) : built.Shaped := by
-  unfold designMatrices at h
+  unfold designMatrices designMatricesWith at h
   simp only [] at h
   shape_peel
   shape_kill
